@@ -619,7 +619,8 @@ impl RealW {
                 o.b("out", r.as_bytes());
             }
             Step::MToEd { u, sign } => {
-                let p = MontgomeryPoint(u.a32()).to_edwards(*sign & 1);
+                // the sign byte is passed as received: only its low bit may matter
+                let p = MontgomeryPoint(u.a32()).to_edwards(*sign);
                 o.f("some", p.is_some());
                 if let Some(p) = p {
                     o.b("enc", p.compress().as_bytes());
